@@ -176,3 +176,57 @@ func zzC07_pair() {
 	}
 	zzReached("end")
 }
+
+// SHORT values of three units lie out of line: StripOffsets / StripByteCounts given as SHORT[3] report the first unit,
+// alike under II and MM
+func zzC07_short3() {
+	v := []uint16{zzU16("v0"), zzU16("v1"), zzU16("v2")}
+	for _, id := range []uint16{0x0111, 0x0117} {
+		var res [2]Exif
+		var errs [2]error
+		for k, be := range []bool{false, true} {
+			val := make([]byte, 6)
+			for i, x := range v {
+				if be {
+					val[2*i], val[2*i+1] = byte(x>>8), byte(x)
+				} else {
+					val[2*i], val[2*i+1] = byte(x), byte(x>>8)
+				}
+			}
+			res[k], errs[k] = zzDecodeOne(be, zzEnt(be, id, 3, 3, 26), append(val, make([]byte, 10)...))
+		}
+		zzAssert((errs[0] == nil) == (errs[1] == nil) && res[0].StripOffsets == res[1].StripOffsets && res[0].StripByteCounts == res[1].StripByteCounts, "SHORT[3] fields decode alike under II and MM")
+		zzAssert(res[0].StripOffsets == uint32(v[0]) || id != 0x0111, "StripOffsets given as SHORT[3] is its first unit")
+	}
+	zzReached("end")
+}
+
+// the TIFF block is located by scanning (as in HEIF files and exif2.Parse): 1 or 3 filler bytes in front of it, II and MM
+// encodings of the same record give the same result
+func zzC07_scan_N() int { return 2 }
+func zzC07_scan() {
+	k := 1 + 2*zzPart()
+	v := zzU16("v")
+	var res [2]Exif
+	var errs [2]error
+	for i, be := range []bool{false, true} {
+		t := zzNewTiff(8+2+12+4+32, be, 8)
+		t.dir(8, 1, 0)
+		t.entShort(8, 0, 0x0112, v)
+		b := append(make([]byte, 0, 64), []byte("xyz")[:k]...)
+		b = append(b, t.b...)
+		rr := bufio.NewReaderSize(zzReaderOf(b), 4096)
+		h, err := tiff.ScanTiffHeader(rr, imagetype.ImageTiff)
+		if err != nil {
+			errs[i] = err
+			continue
+		}
+		ir := NewIfdReader(Logger)
+		errs[i] = ir.DecodeTiff(rr, h)
+		res[i] = ir.Exif
+		ir.Close()
+	}
+	zzAssert((errs[0] == nil) == (errs[1] == nil), "a block found by scanning decodes alike under II and MM (error)")
+	zzAssert(res[0].Orientation == res[1].Orientation && uint16(res[0].Orientation) == v, "a block found by scanning decodes alike under II and MM")
+	zzReached("end")
+}
